@@ -251,11 +251,30 @@ pub fn run_eco_case(ctx: &mut Ctx, bound: usize, mode: u8) {
                     "eco-request",
                     &x.choices(),
                     "Eco query did not request GET /frontpage",
-                    clip(req, 200),
+                    // (the loopback port is ephemeral: keep it out of the record so that a replay compares equal)
+                    clip(&regex_free_port_mask(req), 200),
                     "GET /frontpage HTTP/1.1",
                     vec![],
                 );
             }
         },
     );
+}
+
+
+/// `Host: 127.0.0.1:43761` -> `Host: 127.0.0.1:<port>`
+fn regex_free_port_mask(req: &str) -> String {
+    req.lines()
+        .map(|l| {
+            if l.to_ascii_lowercase().starts_with("host:") {
+                match l.rfind(':') {
+                    Some(i) if i > 5 && l[i + 1 ..].chars().all(|c| c.is_ascii_digit()) => format!("{}:<port>", &l[.. i]),
+                    _ => l.to_string(),
+                }
+            } else {
+                l.to_string()
+            }
+        })
+        .collect::<Vec<_>>()
+        .join("\r\n")
 }
